@@ -1,0 +1,184 @@
+//go:build verif
+
+package keyproof
+
+// A cheating prover for the verification harness in /verif (build tag "verif"; nothing here changes behaviour): it
+// knows the factorisation of a modulus N = P*Q whose factor Q = 2*r^3+1 is prime but not a safe prime, and builds a
+// key-correctness proof in which the Pedersen commitment for q is 0 modulo the group prime, so that the relations
+// that would expose Q hold vacuously. A correct verifier refuses the proof.
+
+import (
+	"github.com/privacybydesign/gabi/big"
+	"github.com/privacybydesign/gabi/internal/common"
+	"github.com/privacybydesign/gabi/zkproof"
+)
+
+// sqrt of v modulo r^3 (r odd prime, gcd(v,r)=1), by Hensel/Newton lifting.
+func verifSqrtModCube(v, r, r3 *big.Int) (*big.Int, bool) {
+	vr := new(big.Int).Mod(v, r)
+	if vr.Sign() == 0 {
+		return nil, false
+	}
+	y, ok := common.PrimeSqrt(vr, r)
+	if !ok {
+		return nil, false
+	}
+	y = new(big.Int).Set(y)
+	vm := new(big.Int).Mod(v, r3)
+	for k := 0; k < 3; k++ {
+		// y <- y - (y^2 - v) / (2y)  mod r^3
+		num := new(big.Int).Sub(new(big.Int).Mul(y, y), vm)
+		den := new(big.Int).ModInverse(new(big.Int).Lsh(y, 1), r3)
+		y.Sub(y, new(big.Int).Mul(num, den))
+		y.Mod(y, r3)
+	}
+	if new(big.Int).Mod(new(big.Int).Mul(y, y), r3).Cmp(vm) != 0 {
+		return nil, false
+	}
+	return y, true
+}
+
+// sqrt of v modulo Pprime * r^3
+func verifSqrtCheat(v, Pprime, r, r3 *big.Int) (*big.Int, bool) {
+	a, ok := common.PrimeSqrt(new(big.Int).Mod(v, Pprime), Pprime)
+	if !ok {
+		return nil, false
+	}
+	b, ok := verifSqrtModCube(v, r, r3)
+	if !ok {
+		return nil, false
+	}
+	return common.Crt(a, Pprime, b, r3), true
+}
+
+// The ASPP response phase for oddPhi = Pprime * r^3.
+func verifCheatASPP(Pprime, r, r3, challenge, index *big.Int, commit almostSafePrimeProductCommit) AlmostSafePrimeProductProof {
+	proof := AlmostSafePrimeProductProof{Nonce: commit.nonce, Commitments: commit.commitments}
+	P := new(big.Int).Add(new(big.Int).Lsh(Pprime, 1), big.NewInt(1))
+	Q := new(big.Int).Add(new(big.Int).Lsh(r3, 1), big.NewInt(1))
+	N := new(big.Int).Mul(P, Q)
+	oddPhiN := new(big.Int).Mul(Pprime, r3)
+	phiN := new(big.Int).Lsh(oddPhiN, 2)
+	inv2 := new(big.Int).ModInverse(big.NewInt(2), oddPhiN)
+	for i := range almostSafePrimeProductIters {
+		curc := common.GetHashNumber(challenge, index, i, uint(2*N.BitLen()))
+		log := new(big.Int).Mod(new(big.Int).Add(commit.logs[i], curc), phiN)
+		x1 := new(big.Int).Mod(log, oddPhiN)
+		x2 := new(big.Int).Sub(oddPhiN, x1)
+		x3 := new(big.Int).Mod(new(big.Int).Mul(inv2, x1), oddPhiN)
+		x4 := new(big.Int).Sub(oddPhiN, x3)
+		found := false
+		for _, x := range []*big.Int{x1, x2, x3, x4} {
+			if res, ok := verifSqrtCheat(x, Pprime, r, r3); ok {
+				proof.Responses = append(proof.Responses, res)
+				found = true
+				break
+			}
+		}
+		if !found {
+			return AlmostSafePrimeProductProof{}
+		}
+	}
+	return proof
+}
+
+// Find the bad key deterministically: P = 2P'+1 safe prime with P' = 5 mod 8; r prime, r = 2 mod 3, r = 3 or 7 mod 8,
+// Q = 2r^3+1 prime.
+func verifBadKey() (Pprime, r, r3 *big.Int) {
+	Pprime = new(big.Int).Lsh(big.NewInt(1), 62)
+	Pprime.Add(Pprime, big.NewInt(5)) // 2^62+5 = 5 mod 8
+	for {
+		P := new(big.Int).Add(new(big.Int).Lsh(Pprime, 1), big.NewInt(1))
+		if Pprime.ProbablyPrime(40) && P.ProbablyPrime(40) {
+			break
+		}
+		Pprime.Add(Pprime, big.NewInt(8))
+	}
+	r = big.NewInt(1<<21 + 3) // = 3 mod 8
+	for {
+		m8 := new(big.Int).Mod(r, big.NewInt(8)).Int64()
+		m3 := new(big.Int).Mod(r, big.NewInt(3)).Int64()
+		if (m8 == 3 || m8 == 7) && m3 == 2 && r.ProbablyPrime(40) {
+			r3 = new(big.Int).Exp(r, big.NewInt(3), nil)
+			Q := new(big.Int).Add(new(big.Int).Lsh(r3, 1), big.NewInt(1))
+			if Q.ProbablyPrime(40) {
+				break
+			}
+		}
+		r.Add(r, big.NewInt(4))
+	}
+	return
+}
+
+// VerifForgedKeyProof returns the bad modulus, its bases and the forged proof (variant 0: commitment 0, variant 1:
+// commitment equal to the group prime). ok is false if the cheating prover got stuck (probability about 1/r).
+func VerifForgedKeyProof(variant int) (N *big.Int, Bases []*big.Int, proof ValidKeyProof, ok bool) {
+	Pprime, r, r3 := verifBadKey()
+	Qprime := r3
+	P := new(big.Int).Add(new(big.Int).Lsh(Pprime, 1), big.NewInt(1))
+	Q := new(big.Int).Add(new(big.Int).Lsh(Qprime, 1), big.NewInt(1))
+	N = new(big.Int).Mul(P, Q)
+	Bases = []*big.Int{big.NewInt(36), big.NewInt(49)}
+	s := NewValidKeyProofStructure(N, Bases)
+	primeSize := s.n.BitLen() + 2*rangeProofEpsilon + 10
+	GroupPrime := findSafePrime(primeSize)
+	g, gok := zkproof.BuildGroup(GroupPrime)
+	if !gok {
+		return
+	}
+	degenerate := big.NewInt(0)
+	if variant == 1 {
+		degenerate = new(big.Int).Set(GroupPrime)
+	}
+	zero := big.NewInt(0)
+	list, PprimeSecret := s.pprime.commitmentsFromSecrets(g, nil, Pprime)
+	list, QprimeSecret := s.qprime.commitmentsFromSecrets(g, list, Pprime) // commits to a prime that is not (Q-1)/2
+	list, PSecret := s.p.commitmentsFromSecrets(g, list, P)
+	_, QSecret := s.q.commitmentsFromSecrets(g, nil, Q)
+	list = append(list, degenerate, zero) // the q commitment is 0 modulo the group prime
+	PQNRel := newSecret(g, "pqnrel", new(big.Int).Mod(new(big.Int).Mul(PSecret.hider.secretv, QSecret.secretv.secretv), g.Order))
+
+	bases := zkproof.NewBaseMerge(&g, &PSecret, &QSecret, &PprimeSecret, &QprimeSecret)
+	secrets := zkproof.NewSecretMerge(&PSecret, &QSecret, &PprimeSecret, &QprimeSecret, &PQNRel)
+
+	var PprimeIsPrimeCommit, QprimeIsPrimeCommit primeProofCommit
+	var asppCommit almostSafePrimeProductCommit
+	var BasesValidCommit isSquareProofCommit
+	list = append(list, GroupPrime)
+	list = append(list, s.n)
+	list = s.pPprimeRel.CommitmentsFromSecrets(g, list, &bases, &secrets)
+	list = append(list, zero) // q = 2 qprime + 1 holds vacuously
+	list = s.pQNRel.CommitmentsFromSecrets(g, list, &bases, &secrets)
+	list, PprimeIsPrimeCommit = s.pprimeIsPrime.commitmentsFromSecrets(g, list, &bases, &secrets)
+	list, QprimeIsPrimeCommit = s.qprimeIsPrime.commitmentsFromSecrets(g, list, &bases, &secrets)
+	list, asppCommit = almostSafePrimeProductBuildCommitments(list, Pprime, Qprime)
+	list, BasesValidCommit = s.basesValid.commitmentsFromSecrets(g, list, P, Q)
+
+	challenge := common.HashCommit(list, false)
+
+	phiN := new(big.Int).Lsh(new(big.Int).Mul(Pprime, Qprime), 2)
+	var qspp QuasiSafePrimeProductProof
+	qspp.SFproof = squareFreeBuildProof(N, phiN, challenge, big.NewInt(0))
+	qspp.PPPproof = primePowerProductBuildProof(P, Q, challenge, big.NewInt(1))
+	qspp.DPPproof = disjointPrimeProductBuildProof(P, Q, challenge, big.NewInt(2))
+	qspp.ASPPproof = verifCheatASPP(Pprime, r, r3, challenge, big.NewInt(3), asppCommit)
+	if qspp.ASPPproof.Responses == nil {
+		return
+	}
+
+	proof = ValidKeyProof{
+		GroupPrime:         GroupPrime,
+		PQNRel:             PQNRel.buildProof(g, challenge),
+		PProof:             s.p.buildProof(g, challenge, PSecret),
+		QProof:             s.q.buildProof(g, challenge, QSecret),
+		PprimeProof:        s.pprime.buildProof(g, challenge, PprimeSecret),
+		QprimeProof:        s.qprime.buildProof(g, challenge, QprimeSecret),
+		Challenge:          challenge,
+		PprimeIsPrimeProof: s.pprimeIsPrime.buildProof(g, challenge, PprimeIsPrimeCommit, &secrets),
+		QprimeIsPrimeProof: s.qprimeIsPrime.buildProof(g, challenge, QprimeIsPrimeCommit, &secrets),
+		QSPPproof:          qspp,
+		BasesValidProof:    s.basesValid.buildProof(g, challenge, BasesValidCommit),
+	}
+	proof.QProof.Commit = degenerate
+	return N, Bases, proof, true
+}
